@@ -135,7 +135,12 @@ class ProvXMLSerializer(Serializer):
                     elem, _ns(attr.namespace.uri, attr.localpart)
                 )
                 if isinstance(value, prov.model.Literal):
-                    if value.datatype not in [None, PROV["InternationalizedString"]]:
+                    if value.datatype is not None and not (
+                        value.datatype == PROV["InternationalizedString"]
+                        and value.langtag is not None
+                    ):
+                        # xml:lang stands for prov:InternationalizedString only
+                        # when there is a language tag to write.
                         # str() of a qualified name omits the prefix (and the
                         # colon) of a name in the default namespace
                         subelem.attrib[_ns_xsi("type")] = str(value.datatype)
